@@ -2,5 +2,5 @@ Require Extraction. Require Import ExtrOcamlBasic.
 From Coq Require Import List ZArith.
 From GV Require Import Sched Enum DelayedObjectsModel.
 Definition enum_case (cfg : list Z) (progs : list (list (list Z))) (depth budget : Z) :=
-  enum_case_gen glob loc tstep (init (match cfg with n :: _ => Z.to_nat n | nil => O end) (map decode_prog progs)) depth budget.
+  enum_case_gen glob loc tstep (init_cfg cfg progs) depth budget.
 Extraction "delayedobjects_model.ml" DelayedObjectsModel.run_case enum_case.
